@@ -29,6 +29,8 @@ pub struct Ping {
     pub payload: Vec<u8>,
     pub reply_len: u32,
     pub handler_delay_ms: u32,
+    /// 0 = reply normally; 1..=5 = do the work, then reply with an error status of that code and the message "refused-<id>"
+    pub fail_with: u8,
 }
 
 #[repr(C)]
@@ -46,6 +48,16 @@ pub fn digest(id: u64, payload: &[u8]) -> u64 {
         h = (h ^ *b as u64).wrapping_mul(0x100_0000_01B3);
     }
     h
+}
+
+pub fn code_of(n: u8) -> ErrorCode {
+    match n {
+        1 => ErrorCode::ServiceUnavailable,
+        2 => ErrorCode::InternalError,
+        3 => ErrorCode::InvalidPayload,
+        4 => ErrorCode::ConnectionError,
+        _ => ErrorCode::Timeout,
+    }
 }
 
 pub struct Echo {
@@ -70,6 +82,9 @@ impl Handler<Ping> for Echo {
         if m.handler_delay_ms > 0 {
             tokio::time::sleep(Duration::from_millis(m.handler_delay_ms as u64)).await;
         }
+        if m.fail_with != 0 {
+            return Err(Status { code: code_of(m.fail_with), message: format!("refused-{}", m.id) });
+        }
         Ok(Pong { id: m.id, digest: digest(m.id, &m.payload), filler: vec![(m.id % 251) as u8; m.reply_len as usize] })
     }
 }
@@ -85,6 +100,8 @@ pub struct Req {
     pub client_form: u8,
     /// which sending method is used: 0 = `send`, 1 = `create_rpc_context().set_header(..).send`, 2 = `send_owned`
     pub route: u8,
+    /// 0 = the handler replies normally, 1..=5 = it does its work and then replies with an error status of that code
+    pub fail_with: u8,
 }
 
 #[derive(Debug, Clone)]
@@ -116,6 +133,7 @@ fn gen_req(src: &mut Src, t: u64) -> Req {
         fate,
         client_form: src.weighted(&[3, 3, 1, 1]) as u8,
         route: src.weighted(&[3, 1, 1]) as u8,
+        fail_with: *src.pick(&[0u8, 0, 0, 0, 0, 0, 1, 1, 2, 3, 4, 5]),
     }
 }
 
@@ -156,6 +174,7 @@ impl Prop for Stalled {
                 "payload_len": r.payload_len, "reply_len": r.reply_len, "handler_delay_ms": r.handler_delay_ms, "fate": format!("{:?}", r.fate),
                 "client": (["new+set_timeout", "clone", "clone of clone", "set_timeout twice"][r.client_form as usize]),
                 "route": (["send", "context+header send", "send_owned"][r.route as usize]),
+                "handler_replies": (["ok", "error: service unavailable", "error: internal", "error: invalid payload", "error: connection", "error: timeout"][r.fail_with as usize]),
             })).collect::<Vec<_>>()).collect::<Vec<_>>(),
         })
     }
@@ -166,8 +185,8 @@ impl Prop for Stalled {
          context with a header) to a real server \
          state over the in-process transport; per request a generated fate: deliver, reply head at once but body \
          stalled by d, request delayed by d, request dropped, reply dropped, duplicated, plus optional handler \
-         delay, with d around 0, T/2, T-1, T, T+1, 2T, 10T; payload / reply sizes 0 B - 70 KB; oracle: every request \
-         ends as Ok(reply carrying its own id and the digest of its own payload) or as a ConnectionError/Timeout \
+         delay, and (one request in two) a handler that does its work and then replies with an error status of any of the five codes, with d around 0, T/2, T-1, T, T+1, 2T, 10T; payload / reply sizes 0 B - 70 KB; oracle: every request \
+         ends as Ok(reply carrying its own id and the digest of its own payload), as the error status its own handler replied with, or as a ConnectionError/Timeout \
          status, within T + 5 ms of simulated time; a request whose reply the client saw was executed by the handler; \
          no id is executed more often than it was delivered; non-trivial = a fault with d > 0 on a request"
     }
@@ -224,7 +243,7 @@ async fn run(case: &Case) -> Outcome {
             queue.borrow_mut().push_back(r.fate);
             let client = make_client(addr, t, r.client_form);
             let payload: Vec<u8> = (0..r.payload_len).map(|i| (i as u64 ^ id) as u8).collect();
-            let msg = Ping { id, payload: payload.clone(), reply_len: r.reply_len as u32, handler_delay_ms: r.handler_delay_ms };
+            let msg = Ping { id, payload: payload.clone(), reply_len: r.reply_len as u32, handler_delay_ms: r.handler_delay_ms, fail_with: r.fail_with };
             let r = r.clone();
             futs.push(async move {
                 let started = tokio::time::Instant::now();
@@ -266,6 +285,12 @@ async fn run(case: &Case) -> Outcome {
             match res {
                 Ok((rid, dg, flen)) => {
                     ensure!(
+                        r.fail_with == 0,
+                        "reply-the-handler-never-computed",
+                        "request {id} was answered Ok although its handler replied with an error status (code {})",
+                        r.fail_with
+                    );
+                    ensure!(
                         rid == id && dg == digest(id, &payload) && flen == r.reply_len,
                         "reply-of-another-request",
                         "request {id} received the reply id={rid} digest={dg:#x} filler={flen} (expected digest {:#x}, filler {})",
@@ -277,6 +302,22 @@ async fn run(case: &Case) -> Outcome {
                         !matches!(r.fate, Verdict::FailBefore | Verdict::FailAfter),
                         "reply-through-dropped-message",
                         "request {id} was dropped ({:?}) but returned a reply",
+                        r.fate
+                    );
+                },
+                Err(status) if r.fail_with != 0 && status.code == code_of(r.fail_with) && !matches!(status.code, ErrorCode::ConnectionError | ErrorCode::Timeout) => {
+                    // the reply the handler computed for this very request
+                    ensure!(
+                        status.message == format!("refused-{id}"),
+                        "reply-of-another-request",
+                        "request {id} received the error reply {:?}; its handler replied \"refused-{id}\"",
+                        status
+                    );
+                    ensure!(seen.lock().contains(&id), "reply-without-execution", "request {id} got its handler's error reply but the handler never saw it");
+                    ensure!(
+                        !matches!(r.fate, Verdict::FailBefore | Verdict::FailAfter),
+                        "reply-through-dropped-message",
+                        "request {id} was dropped ({:?}) but returned its handler's reply",
                         r.fate
                     );
                 },
@@ -292,6 +333,7 @@ async fn run(case: &Case) -> Outcome {
                     // (the in-process transport runs a duplicated request's two executions one after the other)
                     let executions = if matches!(r.fate, Verdict::Duplicate) { 2 } else { 1 };
                     let benign = matches!(r.fate, Verdict::Deliver | Verdict::Duplicate)
+                        && r.fail_with == 0
                         && (r.handler_delay_ms as u64) * executions + 10 < case.timeout_ms;
                     ensure!(!benign, "spurious-failure", "request {id} ({:?}, handler delay {} ms) failed with {:?}", r.fate, r.handler_delay_ms, status);
                 },
